@@ -96,6 +96,27 @@ func genC02(t *rapid.T) c02Case {
 		}
 		return c
 	}
+	if rapid.IntRange(0, 5).Draw(t, "directed5") == 0 {
+		// a leader that lags two leader changes behind in the metadata keeps
+		// accepting publishes and sees the fetches followers send to its successors
+		c.Steps = []c02Step{
+			{Op: "publish", N: rapid.IntRange(1, 2).Draw(t, "n0"), Policy: 2}, {Op: "settle"},
+			{Op: "crash", X: 2, Sel: 0}, {Op: "shrink", X: 2}, // a's view of the ISR: {a,b}
+			{Op: "publish", N: 1, Policy: 2}, {Op: "settle"},
+			{Op: "restart", X: 2}, {Op: "settle"},
+			{Op: "lag", X: 0}, // a stops applying metadata
+			{Op: "expand", X: 2}, // ISR {a,b,c} for b and c
+			{Op: "hold"}, {Op: "leader", X: 0, Sel: 0}, // b leads; a does not know
+			{Op: "hold"}, {Op: "leader", X: 1, Sel: 0}, // c leads; b follows c
+			{Op: "shrink", X: 0}, // a does not fetch from c: c drops it from the ISR
+			{Op: "releasestale"},
+			{Op: "publish", N: rapid.IntRange(1, 3).Draw(t, "n1"), Policy: 2}, {Op: "settle"},
+			{Op: "publish", N: rapid.IntRange(1, 2).Draw(t, "n2"), Policy: 2}, {Op: "settle"},
+			{Op: "unlag"}, {Op: "settle"},
+			{Op: "publish", N: 1, Policy: 2}, {Op: "settle"},
+		}
+		return c
+	}
 	if rapid.IntRange(0, 5).Draw(t, "directed4") == 0 {
 		// the old leader is deposed while it is alive and still answers requests;
 		// one follower is ahead of the replica that gets elected: whose answer to
@@ -115,7 +136,7 @@ func genC02(t *rapid.T) c02Case {
 	n := rapid.IntRange(4, 30).Draw(t, "nsteps")
 	for i := 0; i < n; i++ {
 		st := c02Step{X: rapid.IntRange(0, 2).Draw(t, "x"), Sel: rapid.IntRange(0, 5).Draw(t, "sel")}
-		st.Op = rapid.SampledFrom([]string{"publish", "publish", "publish", "settle", "settle", "hold", "release", "crash", "restart", "restart", "shrink", "expand", "leader", "leader"}).Draw(t, "op")
+		st.Op = rapid.SampledFrom([]string{"publish", "publish", "publish", "settle", "settle", "hold", "release", "crash", "restart", "restart", "shrink", "expand", "leader", "leader", "lag", "unlag", "releasestale"}).Draw(t, "op")
 		if st.Op == "publish" {
 			st.N = rapid.IntRange(1, 5).Draw(t, "n")
 			st.Policy = rapid.IntRange(1, 2).Draw(t, "policy")
@@ -126,6 +147,7 @@ func genC02(t *rapid.T) c02Case {
 }
 
 type c02Node struct {
+	lagging bool // does not apply metadata operations until "unlag" (a server that is behind in applying the Raft log)
 	id      string
 	dir     string
 	s       *Server
@@ -204,7 +226,7 @@ func (w *c02World) propose(op *proto.RaftLog, label string, order []string) erro
 	w.labels = append(w.labels, label)
 	for _, id := range order {
 		n := w.nodes[id]
-		if n.up {
+		if n.up && !n.lagging {
 			if err := w.catchUp(n); err != nil {
 				return err
 			}
@@ -432,7 +454,7 @@ func runC02(c c02Case, o *vfutil.Obs) *vfutil.Failure {
 				ln, lh := lp.log.NewestOffset(), lp.log.HighWatermark()
 				for _, id := range ids {
 					n := w.nodes[id]
-					if id == leader || !n.up {
+					if id == leader || !n.up || n.lagging {
 						continue
 					}
 					p := w.part(n)
@@ -495,6 +517,9 @@ func runC02(c c02Case, o *vfutil.Obs) *vfutil.Failure {
 			if !settle() {
 				o.Inconclusive("replicas did not converge within the bound")
 				w.hist = append(w.hist, "settle-timeout")
+				if os.Getenv("VERIF_HIST") != "" {
+					fmt.Println("history:", w.hist)
+				}
 				return nil
 			}
 			// everything at or below the leader's HW is committed from now on
@@ -516,6 +541,41 @@ func runC02(c c02Case, o *vfutil.Obs) *vfutil.Failure {
 				lp.pauseReplication()
 				heldBy[leader] = true
 				w.hist = append(w.hist, "hold")
+			}
+		case "lag":
+			// the server stops applying metadata operations: it keeps its view of
+			// who leads (a leader that does not learn it has been replaced)
+			n := pickNode(st.X)
+			if n.up && !n.lagging {
+				n.lagging = true
+				w.hist = append(w.hist, "lag("+n.id+")")
+				o.Label("server-lags-in-metadata")
+			}
+		case "unlag":
+			for _, id := range ids {
+				n := w.nodes[id]
+				if n.up && n.lagging {
+					n.lagging = false
+					if err := w.catchUp(n); err != nil {
+						return vfutil.Failf("C02/apply-error", "step %d, history %v: %v", step, w.hist, err)
+					}
+					heldBy[id] = false
+					w.hist = append(w.hist, "unlag("+id+")")
+				}
+			}
+		case "releasestale":
+			// a lagging server that still believes it leads serves replication again
+			for _, id := range ids {
+				n := w.nodes[id]
+				if n.up && n.lagging {
+					if p := w.part(n); p != nil && p.IsLeader() {
+						p.mu.Lock()
+						p.pause = false
+						p.mu.Unlock()
+						w.hist = append(w.hist, "release-stale("+id+")")
+						o.Label("stale-leader-serves-replication")
+					}
+				}
 			}
 		case "release":
 			if lp := leaderPart(); lp != nil && heldBy[leader] {
@@ -543,6 +603,7 @@ func runC02(c c02Case, o *vfutil.Obs) *vfutil.Failure {
 			tail := p != nil && p.log.NewestOffset() > p.log.HighWatermark()
 			vfL1Close(n.s)
 			n.up = false
+			n.lagging = false
 			n.s = nil
 			heldBy[n.id] = false
 			// a real crash leaves a HW checkpoint that is up to 5 s old: rewrite
@@ -607,7 +668,7 @@ func runC02(c c02Case, o *vfutil.Obs) *vfutil.Failure {
 			if n == nil || n.id == leader || !isr[n.id] || leaderPart() == nil {
 				continue
 			}
-			if n.up && !heldBy[leader] {
+			if n.up && !heldBy[leader] && !n.lagging {
 				continue // the leader only shrinks a replica that is down or lagging
 			}
 			_, le := leaderPart().GetLeader()
@@ -747,6 +808,9 @@ func runC02(c c02Case, o *vfutil.Obs) *vfutil.Failure {
 	}
 	if f := check(len(c.Steps)); f != nil {
 		return f
+	}
+	if os.Getenv("VERIF_HIST") != "" {
+		fmt.Println("history:", w.hist)
 	}
 	if leaderChanges >= 2 && rejoinWithTail {
 		o.NonTrivial()
